@@ -399,6 +399,13 @@ func run(c Case) (res vh.Result) {
 			continue
 		}
 		if cerr != nil {
+			// the template was loaded; that its tasks did not all come up within the deploy timeout says nothing about the
+			// load (it happens with the machine under heavy load) - the case cannot be judged
+			if strings.Contains(cerr.Error(), "deployment timed out") || strings.Contains(cerr.Error(), "DeadlineExceeded") {
+				res.Inconclusive = fmt.Sprintf("deployment of the loaded workflow did not finish on core %d: %v", ci, cerr)
+				simworld.Discard()
+				return
+			}
 			return fail("load-failed", "loading a well-formed workflow failed on core %d: %v", ci, cerr)
 		}
 		ge, err := w.GetEnv(env.Id, true)
